@@ -48,6 +48,9 @@ pub struct GenCfg {
     /// never generate an edge into the entry block
     pub no_entry_pred: bool,
     pub min_blocks: usize,
+    /// percentage of operations that are intrinsics / indirect branches (when allowed)
+    pub intrinsic_pct: u64,
+    pub branch_pct: u64,
     /// the last block has no out-edges (a reachable block without successors is likely)
     pub ensure_exit: bool,
 }
@@ -71,6 +74,8 @@ impl GenCfg {
             small_consts: false,
             no_entry_pred: false,
             min_blocks: 1,
+            intrinsic_pct: 4,
+            branch_pct: 4,
             ensure_exit: false,
         }
     }
@@ -218,15 +223,25 @@ pub fn operation(rng: &mut Rng, cfg: &GenCfg, branch_targets: &[u64]) -> il::Ope
     if r < 34 {
         return il::Operation::nop();
     }
-    if cfg.allow_intrinsic && r < 38 {
-        let (written, read) = match rng.below(3) {
+    if cfg.allow_intrinsic && r < 34 + cfg.intrinsic_pct {
+        let (written, read) = match rng.below(4) {
             0 => (None, None),
             1 => (Some(vec![E::Scalar(rng.pick(&cfg.scalars).clone())]), Some(vec![E::Scalar(rng.pick(&cfg.scalars).clone())])),
+            2 => {
+                // two declared outputs (rdtsc-like) and two inputs
+                let a = rng.pick(&cfg.scalars).clone();
+                let mut b = rng.pick(&cfg.scalars).clone();
+                if b == a {
+                    b = cfg.scalars[0].clone();
+                }
+                let outs = if a == b { vec![E::Scalar(a)] } else { vec![E::Scalar(a), E::Scalar(b)] };
+                (Some(outs), Some(vec![E::Scalar(rng.pick(&cfg.scalars).clone()), E::Scalar(rng.pick(&cfg.scalars).clone())]))
+            }
             _ => (Some(vec![]), Some(vec![])),
         };
         return il::Operation::intrinsic(il::Intrinsic::new("intr", "intr", vec![], written, read, vec![0x0f, 0x05]));
     }
-    if cfg.allow_branch && r < 42 {
+    if cfg.allow_branch && r >= 60 && r < 60 + cfg.branch_pct {
         let t = if !branch_targets.is_empty() && rng.chance(9, 10) { *rng.pick(branch_targets) } else { 0xdead_0000 + rng.below(16) };
         return il::Operation::branch(il::expr_const(t, 64));
     }
